@@ -354,6 +354,17 @@ def run_shard(spec, acc):
     dbx = refdb.db()
     tier, seed = spec["tier"], spec["seed"]
     dec = NMEA2000Decoder()
+    if spec["i"] % 2 == 1:
+        # every second shard: the decoder carries a manufacturer filter (naming somebody else), and the source of all the traffic
+        # has announced itself with a NAME whose every sub-field is 'not available' (no manufacturer to filter by): the filter
+        # has nothing to say about it, the decoded fields are what they are
+        from .. import hist
+        dec = NMEA2000Decoder(exclude_manufacturer_code=["Garmin", "Navico"]) if spec["i"] % 4 == 1 else NMEA2000Decoder(include_manufacturer_code=["Garmin"])
+        try:
+            dec.decode_basic_string(wire.plain_line(6, 60928, 1, 255, ((1 << 64) - 1).to_bytes(8, "little")), already_combined=True)
+        except Exception:  # noqa: BLE001
+            pass
+        acc.count("shards_decoding_from_a_source_with_an_all_not_available_name_under_a_manufacturer_filter")
     defs = gen.shard_by_pgn(dbx.defs, spec["i"], spec["n"])
     quick = tier == "quick"
     per_field_random = 4 if quick else 30
